@@ -386,7 +386,7 @@ def _check_qnode(spec):
         _exception(e, run, sig, qfeats)
     per = [H] if nm == 1 else list(H)
     if len(per) != nm:
-        raise Viol("structure", f"{len(per)} Hessians for {nm} measurements", sig=sig + ":structure")
+        raise Viol("structure", f"{len(per)} Hessians for {nm} measurements", sig=sig + ":structure", features=qfeats)
     got = np.concatenate([_dense_hessian(h, k, (), "param_shift_hessian(qnode)", sig) for h in per], axis=0)
     ref, err = _ref_hessian(prog)
     nt = _compare(spec, got, ref, err, sig, qfeats)
@@ -407,8 +407,16 @@ def _check_nested(spec):
     cost = base.stacked(circuit)
     x = base._to_iface(hybrid.arg_values(prog)[0], iface)
     sig = f"nested:{method}:{iface}"
+    def _nonpauli(o):
+        return o["op"] in ("Hermitian", "sum", "s_prod") or any(_nonpauli(x) for x in o.get("operands", []))
+
+    nogen = any(o["op"] in ("U2", "U3", "Rot", "CRot") and any(not hybrid.is_const(e) for e in o["p"]) for o in base._walk_ops(prog["ops"]))
     nfeats = {"kind": "nested", "iface": iface, "method": method,
-              "hadamard_autograd_multi_second_order": method == "direct-hadamard" and iface == "autograd" and len(prog["meas"]) >= 2}
+              "hadamard_autograd_multi_second_order": method == "direct-hadamard" and iface == "autograd" and len(prog["meas"]) >= 2,
+              "hadamard_second_order_no_generator": method == "direct-hadamard" and nogen,
+              "jax_second_order_obs_param": iface == "jax" and method == "parameter-shift" and any(_nonpauli(m["obs"]) for m in prog["meas"] if m.get("obs")),
+              "torch_second_order_var": iface == "torch" and method == "parameter-shift" and any(m["mp"] == "var" for m in prog["meas"]),
+              "autograd_multi_measurement": iface == "autograd" and method != "backprop" and len(prog["meas"]) >= 2}
 
     def run():
         if iface == "autograd":
